@@ -142,13 +142,27 @@ def run_stream(ctx, st, safebin):
         for x in states:
             x["done"] = 0
     maxn = max([r.get("n", 0) for r in recs if r.get("ev") == "ec"] + [r.get("row", 0) for r in recs if r.get("ev") == "gv"] + [x["n"] for x in states] + [0])
-    res = {"complete": complete, "rc": rc, "timed_out": to, "nrec": len(recs), "states": states, "stderr": err[-4000:], "maxn": maxn}
+    maxbytes = max([r["bufs"][0]["lb"].get("bytes", 0) for r in recs if r.get("ev") in ("vi", "ex") and r.get("bufs") and r["bufs"][0]] + [0])
+    res = {"complete": complete, "rc": rc, "timed_out": to, "nrec": len(recs), "states": states, "stderr": err[-4000:], "maxn": maxn, "maxbytes": maxbytes}
     if not complete:
         m = re.search(r"SUMMARY: (\S+): (\S+)(?: \S+ in (\S+))?", err) or re.search(r"(runtime error): ([^\n]{0,80})", err)
         res["sig"] = "timeout" if to else (" ".join(x for x in m.groups() if x) if m else "rc=%s" % rc)
         m = re.search(r"#\d+ 0x[0-9a-f]+ in (\w+) [^\n]*/(\w+\.c):(\d+)", err)
         res["where"] = "%s %s" % (m.group(2), m.group(1)) if m else ""
     return res
+
+
+def inconclusive(vi, body, r):
+    """a stream that ran out of time while demonstrably progressing is slow, not stuck"""
+    if r["timed_out"] and (r["maxn"] >= 20000 or r["maxbytes"] >= 100000):
+        # the stream doubled the buffer again and again (g/./pu, yGP ...): exponential work, still progressing; or a counted
+        # put made a line of 10^5 bytes or more and every later command renders it (the stream of the thorough tier that did
+        # this ended normally after 63 s on the plain build)
+        return "inconclusive_growth"
+    if r["timed_out"] and vi and re.search(r"\d{8,}", body):
+        # a count of 10^8 or more before } { J . and the like is that many cheap iterations: slow, not stuck
+        return "inconclusive_huge_count"
+    return None
 
 
 def splitter(ctx, st):
@@ -252,6 +266,9 @@ def replay(ctx, r):
           "file": r.get("file"), "exinit": r.get("exinit", ""), "origin": "replay"}
     res = run_stream(ctx, st, checks_util.build_execshim(ctx))
     print(json.dumps({k: res[k] for k in ("complete", "rc", "timed_out", "nrec")}), res.get("sig", ""), res.get("where", ""))
+    if not res["complete"] and inconclusive(st["vi"], bytes.fromhex(r["stream_hex"]).decode(), res):
+        print("inconclusive: the stream ran out of time while the buffer kept growing (%d lines, %d bytes) or under a count of 10^8 or more" % (res["maxn"], res["maxbytes"]))
+        return 0
     if not res["complete"]:
         print(res["stderr"][-3000:])
         print("VIOLATION property=C05 replay=%s" % os.path.abspath(sys.argv[sys.argv.index("--replay") + 1]))
@@ -333,13 +350,9 @@ def main(ctx, args):
         st["by_origin"][o] = st["by_origin"].get(o, 0) + 1
         if not r["complete"]:
             body = txt(s["cps"])
-            if r["timed_out"] and r["maxn"] >= 20000:
-                # the stream doubled the buffer again and again (g/./pu, yGP ...): exponential work, still progressing
-                st["inconclusive_growth"] += 1
-                continue
-            if r["timed_out"] and s["vi"] and re.search(r"\d{8,}", body):
-                # a count of 10^8 or more before } { J . and the like is that many cheap iterations: slow, not stuck
-                st["inconclusive_huge_count"] += 1
+            why = inconclusive(s["vi"], body, r)
+            if why:
+                st[why] += 1
                 continue
             st["incomplete"] += 1
             sig = {"kind": "hang" if r["timed_out"] else "crash", "what": r["sig"], "where": r.get("where", "")}
@@ -417,7 +430,7 @@ def main(ctx, args):
                       ["stdin is not a terminal: keys arrive without timing, resize signals are not delivered",
                        "shell-outs run a stub filter instead of the user's shell",
                        "^Z (suspend) is removed from vi streams",
-                       "a stream that keeps doubling the buffer (20000 lines or more when the time is up) is exponential work, not a hang: inconclusive",
+                       "a stream that keeps doubling the buffer (20000 lines or 100000 bytes or more when the time is up) is exponential work, not a hang: inconclusive",
                        "work proportional to a typed count is not a hang: a vi stream with a count of 10^8 or more that exceeds the time bound is inconclusive, not a violation",
                        "streams whose patterns loop over an empty-matching group are set aside (known finding of C11: the matcher backtracks without bound); "
                        "one corpus stream replays it",
